@@ -395,10 +395,19 @@ impl Compiler {
                 {
                     // Make const size by transforming `(?<=a|bb)` to `(?<=a)|(?<=bb)`
                     let alternatives = &inner.children;
+                    // atomic as a whole: once one alternative has matched, the others are
+                    // never tried
+                    if inner.hard {
+                        self.b.add(Insn::BeginAtomic);
+                    }
                     self.compile_alt(alternatives.len(), |compiler, i| {
                         let alternative = &alternatives[i];
                         compiler.compile_positive_lookaround(alternative, la)
-                    })
+                    })?;
+                    if inner.hard {
+                        self.b.add(Insn::EndAtomic);
+                    }
+                    Ok(())
                 } else {
                     self.compile_positive_lookaround(inner, la)
                 }
@@ -428,7 +437,15 @@ impl Compiler {
     fn compile_positive_lookaround(&mut self, inner: &Info<'_>, la: LookAround) -> Result<()> {
         let save = self.b.newsave();
         self.b.add(Insn::Save(save));
+        // A look-around is atomic: once its body has matched, it is never re-entered. An easy
+        // body is a single delegate or literal and has no backtrack branches to discard.
+        if inner.hard {
+            self.b.add(Insn::BeginAtomic);
+        }
         self.compile_lookaround_inner(inner, la)?;
+        if inner.hard {
+            self.b.add(Insn::EndAtomic);
+        }
         self.b.add(Insn::Restore(save));
         Ok(())
     }
